@@ -181,6 +181,92 @@ Proof.
 Qed.
 Print Assumptions C04_rerun_after_interrupted_prepare_refuted.
 
+(* ---- ONE converter object, several method calls (process / check_NP24 / delete_NP24 /
+   assignment of the option attributes), exceptions caught in between ------------------- *)
+
+(* check_completed of an object is true only if some check_NP24 step executed by THIS object (in a
+   process() call or called directly) found every shank's ap.bin complete.  Any kind, any call
+   sequence, any interruptions. *)
+Theorem C04_object_check_completed_sound : forall kd n w cs ob fs,
+  ob_checked ob = false -> ob_checked (fst (obj_after kd n w ob fs cs)) = true ->
+  exists l1 m l2 rsv, obj_steps kd n w ob fs cs = l1 ++ SVerify m :: l2 /\
+    exec l1 (mkR fs false) = (rsv, None) /\
+    forall k, (k < m)%nat -> r_fs rsv (PFile (Shank k Ap) FBin) = Complete.
+Proof. exact object_check_completed_sound. Qed.
+Print Assumptions C04_object_check_completed_sound.
+
+(* ... but NOT "the last check_NP24 succeeded" (F-C04-e, faithful to the code: the flag is never
+   reset).  (a) a successful process(), then a direct check_NP24() on a damaged shank file fails and
+   leaves check_completed true; setting delete_original and calling delete_NP24() then removes the
+   original although shank 0 is damaged.  (b) without touching any attribute: process() interrupted
+   during compression (after its verification), process(overwrite=True) interrupted in the window
+   loop (shank files truncated), delete_NP24(): the original is gone and nothing complete is left. *)
+Theorem C04_object_check_completed_stale_refuted :
+  (let '(ob, fs) := obj_after NP24 1 3 (new_obj (mkO true false false) false) (init_fs false)
+                      [CProcess false None None; CCheck None (Some 0%nat)] in
+   ob_checked ob = true /\ fs (PFile (Shank 0 Ap) FBin) = Partial /\
+   out_outcome (nth 1 (obj_run NP24 1 3 (new_obj (mkO true false false) false) (init_fs false)
+                         [CProcess false None None; CCheck None (Some 0%nat)])
+                      (noop fs (Status 0) false)) = Raised EAssertion) /\
+  (let '(ob, fs) := obj_after NP24 1 3 (new_obj (mkO true false false) false) (init_fs false)
+                      [CProcess false None None; CCheck None (Some 0%nat);
+                       CSetOpts (mkO true true false); CDelete None] in
+   fs (PFile Orig FBin) = Absent /\ fs (PFile Orig FCbin) = Absent /\
+   fs (PFile (Shank 0 Ap) FBin) = Partial /\ fs (PFile (Shank 0 Ap) FCbin) = Absent) /\
+  (let '(ob, fs) := obj_after NP24 1 3 (new_obj (mkO true true true) false) (init_fs false)
+                      [CProcess false (Some 13%nat) None; CProcess true (Some 5%nat) None; CDelete None] in
+   fs (PFile Orig FBin) = Absent /\ fs (PFile Orig FCbin) = Absent /\
+   fs (PFile (Shank 0 Ap) FBin) = Partial /\ fs (PFile (Shank 0 Ap) FCbin) = Absent).
+Proof. vm_compute. repeat split. Qed.
+Print Assumptions C04_object_check_completed_stale_refuted.
+
+(* F-C04-d (faithful to the code): process() with post_check and delete_original completes and
+   removes the original; process(overwrite=True) on the SAME object then truncates the shank files
+   in _prepare_files_NP24 before it reads through the reader it has closed (the interpreter dies):
+   with compress=False nothing complete is left. *)
+Theorem C04_object_rerun_after_delete_refuted :
+  let cs := [CProcess false None None; CProcess true None None] in
+  let ob0 := new_obj (mkO true true false) false in
+  let '(ob, fs) := obj_after NP24 1 3 ob0 (init_fs false) cs in
+  out_outcome (nth 0 (obj_run NP24 1 3 ob0 (init_fs false) cs) (noop fs (Status 0) false)) = Status 1 /\
+  out_outcome (nth 1 (obj_run NP24 1 3 ob0 (init_fs false) cs) (noop fs (Status 0) false)) = Raised EOther /\
+  fs (PFile Orig FBin) = Absent /\ fs (PFile Orig FCbin) = Absent /\
+  fs (PFile (Shank 0 Ap) FBin) = Partial /\ fs (PFile (Shank 0 Ap) FCbin) = Absent.
+Proof. vm_compute. repeat split. Qed.
+Print Assumptions C04_object_rerun_after_delete_refuted.
+
+(* F-C04-f (faithful to the code): NP2.1, after compress_NP21 has reopened self.sr with the default
+   sort=True, a forced re-run on the same object returns 1 but the lf output does not have the
+   expected bytes (channels written in geometry order). *)
+Theorem C04_object_np21_reopened_reader_refuted :
+  let cs := [CProcess false None None; CProcess true None None] in
+  let ob0 := new_obj (mkO false false true) false in
+  let '(ob, fs) := obj_after NP21 0 2 ob0 (init_fs false) cs in
+  out_outcome (nth 1 (obj_run NP21 0 2 ob0 (init_fs false) cs) (noop fs (Status 0) false)) = Status 1 /\
+  ob_sorted ob = true /\ fs (PFile Lf21 FCbin) = Partial /\ orig_ok fs.
+Proof. vm_compute. repeat split. right. split; reflexivity. Qed.
+Print Assumptions C04_object_np21_reopened_reader_refuted.
+
+(* What does hold for one object: any number of process() calls — any overwrite flag, interrupted
+   anywhere, with or without a damaged shank file — with the options fixed at construction, on any
+   reachable directory: every call made while the object has not yet deleted the original leaves
+   the original recoverable (a stale check_completed cannot matter, because process() re-verifies
+   before delete_NP24 whenever post_check is set and never sets the flag otherwise). *)
+Theorem C04_object_process_sequences_safe : forall n w compressed h o (c : bool) cs ow cr cp,
+  let fs := state_after NP24 n w (init_fs compressed) h in
+  input_state NP24 n fs (if c then TCbin else TBin) = Present ->
+  forallb is_process cs = true ->
+  ob_closed (fst (obj_after NP24 n w (new_obj o c) fs cs)) = false ->
+  let fs' := snd (obj_after NP24 n w (new_obj o c) fs (cs ++ [CProcess ow cr cp])) in
+  fs' (PFile Orig FMeta) = Complete /\ (orig_ok fs' \/ shanks_ok n fs').
+Proof.
+  intros n w compressed h o c cs ow cr cp fs Hin Hall Hcl fs'.
+  pose proof (history_inv NP24 n w h _ (init_inv NP24 n compressed)) as Hinv.
+  destruct (object_process_sequences_safe n w cs ow cr cp (new_obj o c) fs Hall
+              (new_obj_J n fs o c Hinv Hin) Hcl) as [A [_ [B | [_ B]]]]; auto.
+Qed.
+Print Assumptions C04_object_process_sequences_safe.
+
 (* Non-vacuity: a complete NP2.4 run with verification, compression and
    deletion from the fresh directory ends with the original gone, every shank
    compressed, check_completed set; the same history interrupted just before
